@@ -1,10 +1,11 @@
 package main
 
 import (
-	"strings"
 	"encoding/hex"
 	"fmt"
 	"math"
+	"strconv"
+	"strings"
 
 	geom "github.com/twpayne/go-geom"
 	"github.com/twpayne/go-geom/encoding/geojson"
@@ -31,7 +32,12 @@ func (r *Rng) decimalOrd() float64 {
 	if r.chance(1, 12) {
 		return machineBoundaries[r.Intn(len(machineBoundaries))]
 	}
-	switch r.Intn(14) {
+	switch r.Intn(15) {
+	case 14:
+		// a few significant digits far behind (or before) the decimal point: 1e-24, 2.5e-25, 7.5e27 —
+		// the float64 nearest to a short decimal numeral
+		v, _ := strconv.ParseFloat(fmt.Sprintf("%de%d", r.Intn(19999)-9999, r.Intn(71)-45), 64)
+		return v
 	case 0:
 		return 0
 	case 1:
